@@ -1,6 +1,6 @@
 //go:build verif
 
-// C01: outbound DATA never exceeds the peer's flow-control windows (loopyWriter).
+// C03: a stream with data and credit is eventually written: scheduling invariants and per-round progress (loopyWriter). GENERATED from C01.go by tools/gen_loopy.sh
 //verif:pkg internal/transport
 //verif:bound loop=40 steps=8000000 paths=300000
 //verif:stub (*google.golang.org/grpc/internal/transport.framer).writeData => verifStubWriteData
@@ -22,7 +22,7 @@ import (
 	"google.golang.org/grpc/mem"
 )
 
-const verifProp = 1 // 1: window limits (C01)  2: order/completeness (C02)  3: progress invariants (C03)
+const verifProp = 3 // 1: window limits (C01)  2: order/completeness (C02)  3: progress invariants (C03)
 
 type verifWrite struct {
 	id        uint32
@@ -241,13 +241,13 @@ func verifNewMsg(id uint32) (*verifMsg, *dataFrame) {
 
 var verifSteps = 1
 
-//verif:thoroughonly verifH_C01_loopy5
-func verifH_C01_loopy5() {
+//verif:thoroughonly verifH_C03_loopy5
+func verifH_C03_loopy5() {
 	verifSteps = 3
-	verifH_C01_loopy()
+	verifH_C03_loopy()
 }
 
-func verifH_C01_loopy() {
+func verifH_C03_loopy() {
 	verifWrites, verifHdrWrites, verifRSTs = nil, nil, nil
 	done := make(chan struct{})
 	l := newLoopyWriter(serverSide, &framer{}, newControlBuffer(done), nil, nil, nil, nil, nil)
@@ -387,7 +387,7 @@ func verifH_C01_loopy() {
 }
 
 // HEADERS / CONTINUATION fragmentation: every fragment at most 16384 bytes, END_HEADERS on the last
-func verifH_C01_headers() {
+func verifH_C03_headers() {
 	verifWrites, verifHdrWrites, verifRSTs = nil, nil, nil
 	done := make(chan struct{})
 	l := newLoopyWriter(serverSide, &framer{}, newControlBuffer(done), nil, nil, nil, nil, nil)
